@@ -167,6 +167,20 @@ def plan(tier, seed):
             if des is not None:
                 for f in nullable:
                     cases.append({"spec": spec, "devs": [dev(file, inst, f, b" " * f["w"])], "label": f"{level} {des} blank {file}.{inst}.{f['key']}"})
+    # the image file descriptor under ScanSAR file names (-F<n> full aperture, -B<n> SPECAN): what a blank header field
+    # means must not depend on how the file is called
+    for level, scan in (("1.1", "F1"), ("1.1", "B2"), ("1.5", "F3"), ("1.5", "B1")):
+        spec = {**(SPEC11 if level == "1.1" else SPEC15), "images": [["HH", scan, 4, 2]]}
+        lay = synth.layout("img.file_descriptor")
+        nullable = [f for f in lay.fields if f["kind"] in "AIFC" and not required(f) and not padding_like(f["name"])]
+        cases.append({"spec": spec, "devs": [], "label": f"{level} {scan} baseline"})
+        for f in nullable:
+            cases.append({"spec": spec, "devs": [dev("img0", "file_descriptor", f, b" " * f["w"])], "label": f"{level} image named -{scan}: blank img0.file_descriptor.{f['key']}"})
+        cases.append({"spec": spec, "devs": [dev("img0", "file_descriptor", f, b" " * f["w"]) for f in nullable], "label": f"{level} image named -{scan}: blank all of img0.file_descriptor"})
+        numeric = [f for f in nullable if f["kind"] in "IF"]
+        for f in numeric:
+            devs = [dev("img0", "file_descriptor", g, "4".rjust(g["w"]).encode()) for g in numeric if g["key"] != f["key"]] + [dev("img0", "file_descriptor", f, b" " * f["w"])]
+            cases.append({"spec": spec, "devs": devs, "label": f"{level} image named -{scan}: blank img0.file_descriptor.{f['key']} among fields that all hold 4"})
     if tier == "thorough":
         cases += influence_cases()
     return cases
@@ -241,7 +255,7 @@ def execute(case):
 def run(res, tier, seed):
     res.rule = (
         "level 1.5 and 1.1 products: every nullable ASCII value field (not a count/length/code/flag/date-time) of every record"
-        " blanked alone, all of a record at once (+ all pairs within a record, thorough), and alone in a record whose numeric fields all hold the same value (35 / 0);" " the map-projection record under each of the LCC / MER / UPS / UTM designators; every spare/blank/reserved area"
+        " blanked alone, all of a record at once (+ all pairs within a record, thorough), and alone in a record whose numeric fields all hold the same value (35 / 0);" " the map-projection record under each of the LCC / MER / UPS / UTM designators; the image descriptor under -F<n> / -B<n> file names; every spare/blank/reserved area"
         " (text, numeric, binary, length-dependent padding, ignored facility content) rewritten with each content of its character"
         " class, alone and all at once; thorough: one well-formed single-byte change for every byte of every leader value field"
         " and of both line-record prefixes. The whole tree (except attitude time, C17) is compared with the reference model."
